@@ -317,6 +317,11 @@ def run(res, tier, seed):
     for _ in range(extra):
         M, bnds, prof = gen_system(rng)
         run_oracle(res, M, bnds, rng=rng)
+    for _ in range(6 if tier == "quick" else 60):
+        # the sizes configurators produce (thousands of entries, a few per cent non-zero), with a planted solution
+        M, bnds, x0 = gen_large_sparse_planted(rng)
+        res.count("large_sparse_polyhedra")
+        run_oracle(res, M, bnds, points=[x0], rng=rng)
     if tier != "quick":
         # exhaustive sub-domain: all 2-row x 2-column systems with entries in -2..2 over three fixed boxes
         vals = range(-2, 3)
